@@ -1,5 +1,6 @@
 """Property-specific scenario kinds and monitors that need more than one run."""
 import json
+import os
 import random
 import time
 
@@ -98,6 +99,9 @@ def mon_C14(s):
         has_retry = t["retry"] is not None or n["id"] in retry_cmd
         if (n["retry"] is not None) != has_retry:
             out.append(V("retry attribute of %s is %r but retry declared=%s" % (n["id"], n["retry"], has_retry), 0))
+        elif n["id"] in retry_cmd and (not n["retry"]["when"] or n["retry"]["delay"]):
+            # a retry command becomes the task's policy (condition of the transition, count 3)
+            out.append(V("task %s has a retry command but its policy is %r" % (n["id"], n["retry"]), 0))
     if len(s["replies"]) > 1 and "res" in s["replies"][1]:
         if core.dumps(s["replies"][1]["res"]) != core.dumps(g):
             out.append(V("graph depends on the declaration order", 1))
@@ -317,6 +321,39 @@ def mon_C15_inspect(s):
     return out
 
 
+def mon_C19_hashseed(s, seeds=("1", "7")):
+    """the same history replayed in other processes with other hash seeds gives identical replies,
+    inspection report, graph and persisted form (byte for byte, key order included)"""
+    import subprocess
+    if not s["ops"] or s["ops"][0]["op"] != "init":
+        return []
+    # also a definition with inspection errors in one property (ties in the report order)
+    ops = list(s["ops"])
+    lines = "\n".join(json.dumps(o) for o in ops) + "\n"
+    digests = []
+    for hs in seeds:
+        env = dict(os.environ, PYTHONHASHSEED=hs, PYTHONPATH=core.VERIF)
+        p = subprocess.run(["/venv/bin/python", "-m", "harness.replay_digest"], input=lines.encode(),
+                           stdout=subprocess.PIPE, stderr=subprocess.PIPE, env=env, cwd=core.VERIF, timeout=120)
+        if p.returncode != 0:
+            return [V("replay under PYTHONHASHSEED=%s failed: %s" % (hs, p.stderr.decode()[-200:]), 0)]
+        digests.append(p.stdout.decode().strip())
+    if len(set(digests)) > 1:
+        return [V("replies / inspection report / graph differ between hash seeds %s" % (list(seeds),), len(ops) - 1)]
+    return []
+
+
+def hashseed_probe_def():
+    """a definition whose inspection report has several entries tying on every sort key but the
+    expression text (the situation in which set iteration order shows)"""
+    return {"input": [], "vars": [["x", {"lit": 0}]], "output": [], "tasks": [
+        {"name": "a", "action": "core.noop", "join": None, "with": None, "retry": None, "delay": None,
+         "input": [["p", {"ctx": "nope"}], ["q", {"op": "add", "a": {"ctx": "nope"}, "b": {"lit": 1}}],
+                   ["r", {"op": "add", "a": {"ctx": "nope"}, "b": {"lit": 2}}],
+                   ["s", {"op": "add", "a": {"ctx": "nope"}, "b": {"lit": 3}}]],
+         "next": []}]}
+
+
 def extra_monitor(pid, s):
     from harness import twins
     if pid == "C08":
@@ -327,6 +364,11 @@ def extra_monitor(pid, s):
         return twins.mon_C17_twin(s)
     if pid == "C15":
         return mon_C15_inspect(s)
+    if pid == "C19":
+        # a sample of the scenarios is replayed under other hash seeds (subprocesses are slow)
+        if not isinstance(s.get("idx"), int) or s["idx"] % 12 == 0:
+            return mon_C19_hashseed(s)
+        return []
     if pid == "C05":
         return mon_C05(s)
     if pid == "C14":
